@@ -41,7 +41,8 @@ impl ListenerScn {
 
 pub fn gen(rng: &mut Rng) -> ListenerScn {
     let keys = rng.range(1, 3) as u32;
-    let n = *rng.pick(&[1u32, 1, 2, 2, 3]);
+    // mostly small limits (where shedding happens), sometimes the largest ones ("no limit")
+    let n = *rng.pick(&[1u32, 1, 1, 2, 2, 2, 3, 3, u32::MAX, u32::MAX - 1]);
     let nb = rng.range(1, 10);
     let mut batches = Vec::new();
     for _ in 0..nb {
